@@ -756,11 +756,13 @@ func cmdLang(args []string) {
 		// decodeOne calls of the decoder's own level, observed through the build-tag hook
 		// (sequential: the hook is a package-level variable)
 		type se struct {
-			K    string   `json:"k"`
-			Fam  string   `json:"fam"`
-			Lvl  string   `json:"lvl"`
-			S    string   `json:"s"`
-			Toks []string `json:"toks"`
+			K     string   `json:"k"`
+			Fam   string   `json:"fam"`
+			Lvl   string   `json:"lvl"`
+			S     string   `json:"s"`
+			Toks  []string `json:"toks"`
+			Snaps []snap   `json:"snaps"` // receiver state at every decodeOne entry, then after Decode returned
+			Ok    bool     `json:"ok"`
 		}
 		step := len(inputs) / *nsteps
 		if step < 1 {
@@ -772,22 +774,22 @@ func cmdLang(args []string) {
 			}
 			for _, lvl := range lvls {
 				site := siteNames[*fam+string(lvl)]
-				toks := []string{}
+				h := newHandle(*fam, lvl, true)
+				ev := se{K: "steps", Fam: *fam, Lvl: string(lvl), S: asciiSafe(inputs[i]), Toks: []string{}, Snaps: []snap{}}
 				setHook(func(s string, recv any, arg string) {
 					if s == site {
-						toks = append(toks, asciiSafe(arg))
+						ev.Toks = append(ev.Toks, asciiSafe(arg))
+						ev.Snaps = append(ev.Snaps, h.snapshot())
 					}
 				})
 				func() {
 					defer func() { recover() }()
-					if *fam == "v3" {
-						v3Decode(lvl, inputs[i])
-					} else {
-						v2Decode(lvl, inputs[i])
-					}
+					_, err := h.decode(inputs[i])
+					ev.Ok = err == nil
 				}()
 				setHook(nil)
-				recs[0].Add(evBody(se{"steps", *fam, string(lvl), asciiSafe(inputs[i]), toks}), "decodeOne hook")
+				ev.Snaps = append(ev.Snaps, h.snapshot())
+				recs[0].Add(evBody(ev), "decodeOne hook")
 			}
 		}
 	}
